@@ -179,6 +179,97 @@ var ruleO4 = &Rule{
 				}
 			}
 		}
+		// 3. the same through helpers: a slice stored into a row-model object that may share its backing array with an array of a
+		// handed-over object — re-slices, phis and the results of module functions (generic instances included) are followed,
+		// parameters bound to the arguments of the call they were entered through
+		var shares func(v ssa.Value, bind map[*ssa.Parameter]ssa.Value, depth int, seen map[ssa.Value]bool) string
+		shares = func(v ssa.Value, bind map[*ssa.Parameter]ssa.Value, depth int, seen map[ssa.Value]bool) string {
+			if v == nil || seen[v] || depth > 4 {
+				return ""
+			}
+			seen[v] = true
+			switch x := v.(type) {
+			case *ssa.Slice:
+				return shares(x.X, bind, depth, seen)
+			case *ssa.ChangeType:
+				return shares(x.X, bind, depth, seen)
+			case *ssa.Phi:
+				for _, e := range x.Edges {
+					if k := shares(e, bind, depth, seen); k != "" {
+						return k
+					}
+				}
+			case *ssa.Parameter:
+				if a, ok := bind[x]; ok {
+					return shares(a, bind, depth, seen)
+				}
+			case *ssa.UnOp:
+				if x.Op == token.MUL {
+					if fa, ok := x.X.(*ssa.FieldAddr); ok && isModelStruct(fa.X.Type()) {
+						if _, isSlice := x.Type().Underlying().(*types.Slice); isSlice {
+							return fromHanded(fa.X, map[ssa.Value]bool{})
+						}
+					}
+				}
+			case *ssa.Call:
+				sc := x.Common().StaticCallee()
+				if sc == nil || len(sc.Blocks) == 0 || !isModuleFn(sc) {
+					return ""
+				}
+				nb := map[*ssa.Parameter]ssa.Value{}
+				for k, val := range bind {
+					nb[k] = val
+				}
+				for i, p := range sc.Params {
+					if i < len(x.Common().Args) {
+						nb[p] = x.Common().Args[i]
+					}
+				}
+				for _, r := range returnsOf(sc) {
+					if len(r.Results) == 1 {
+						if k := shares(r.Results[0], nb, depth+1, seen); k != "" {
+							return k
+						}
+					}
+				}
+			}
+			return ""
+		}
+		for _, fn := range funcs {
+			for _, b := range fn.Blocks {
+				for _, ins := range b.Instrs {
+					st, ok := ins.(*ssa.Store)
+					if !ok {
+						continue
+					}
+					dst, ok := st.Addr.(*ssa.FieldAddr)
+					if !ok || !isModelStruct(dst.X.Type()) {
+						continue
+					}
+					if _, isSlice := st.Val.Type().Underlying().(*types.Slice); !isSlice {
+						continue
+					}
+					if _, direct := st.Val.(*ssa.Slice); direct {
+						continue // judged above
+					}
+					if _, isCall := st.Val.(*ssa.Call); !isCall {
+						if _, isPhi := st.Val.(*ssa.Phi); !isPhi {
+							continue
+						}
+					}
+					if bi, ok := st.Val.(*ssa.Call); ok {
+						if _, isBuiltin := bi.Common().Value.(*ssa.Builtin); isBuiltin {
+							continue // append(x.f, …) extends the object's own array
+						}
+					}
+					if k := shares(st.Val, map[*ssa.Parameter]ssa.Value{}, 0, map[ssa.Value]bool{}); k != "" {
+						key := kk.key(ssaName(fn) + " stores an array shared with the object in " + rel(k))
+						obls = append(obls, Obl{Key: key, Pos: c.pos(st.Pos()), Status: Violation,
+							Msg: "the stored slice may be a re-slice (through a helper) of an array of a row-model object that is handed to the insert path by a channel send (" + c.pos(handed[k]) + "): the next chunk overwrites rows the consumer has not inserted yet"})
+					}
+				}
+			}
+		}
 		return obls
 	},
 }
